@@ -775,7 +775,15 @@ pub enum Layout {
   NewlinesTabs,
   BlockComments,
   LineComments,
+  /// every white space character of the FEEL grammar (rules 61, 62) in turn, also before the first and after the last token
+  EveryWhiteSpace,
 }
+
+/// white space characters of the FEEL grammar
+pub const FEEL_WHITE_SPACE: &[char] = &[
+  '\u{0009}', '\u{000A}', '\u{000B}', '\u{000C}', '\u{000D}', '\u{0020}', '\u{0085}', '\u{00A0}', '\u{1680}', '\u{180E}', '\u{2000}', '\u{2001}', '\u{2002}', '\u{2003}', '\u{2004}', '\u{2005}', '\u{2006}',
+  '\u{2007}', '\u{2008}', '\u{2009}', '\u{200A}', '\u{200B}', '\u{2028}', '\u{2029}', '\u{202F}', '\u{205F}', '\u{3000}', '\u{FEFF}',
+];
 
 fn needs_space(a: &Tok, b: &Tok) -> bool {
   if a.space_after {
@@ -816,6 +824,11 @@ fn needs_space(a: &Tok, b: &Tok) -> bool {
 
 pub fn join(toks: &[Tok], layout: Layout) -> String {
   let mut out = String::new();
+  // rotation of the white space alphabet: differs from tree to tree so that every character meets every kind of token
+  let rot = toks.iter().map(|t| t.text.len()).sum::<usize>() + toks.len();
+  if matches!(layout, Layout::EveryWhiteSpace) {
+    out.push(FEEL_WHITE_SPACE[rot % FEEL_WHITE_SPACE.len()]);
+  }
   for (i, t) in toks.iter().enumerate() {
     if i > 0 {
       let prev = &toks[i - 1];
@@ -830,9 +843,21 @@ pub fn join(toks: &[Tok], layout: Layout) -> String {
         Layout::NewlinesTabs => out.push_str(if i % 2 == 0 { "\n\t" } else { " \n" }),
         Layout::BlockComments => out.push_str(" /* c 1 + ( */ "),
         Layout::LineComments => out.push_str(" // c ) \"\n "),
+        Layout::EveryWhiteSpace => {
+          // U+1680, U+180E and U+FEFF are white space by rule 61 and name characters by rule 30 at the same time: directly after a
+          // name the grammar is ambiguous (the lexer continues the name), so another character is used there
+          let ch = FEEL_WHITE_SPACE[(rot + i) % FEEL_WHITE_SPACE.len()];
+          let after_name = prev.text.chars().last().map(|c| c.is_alphanumeric() || c == '_' || c == '?').unwrap_or(false);
+          out.push(if after_name && matches!(ch, '\u{1680}' | '\u{180E}' | '\u{FEFF}') { '\u{200B}' } else { ch })
+        }
       }
     }
     out.push_str(&t.text);
+  }
+  if matches!(layout, Layout::EveryWhiteSpace) {
+    let ch = FEEL_WHITE_SPACE[(rot + toks.len()) % FEEL_WHITE_SPACE.len()];
+    let after_name = toks.last().and_then(|t| t.text.chars().last()).map(|c| c.is_alphanumeric() || c == '_' || c == '?').unwrap_or(false);
+    out.push(if after_name && matches!(ch, '\u{1680}' | '\u{180E}' | '\u{FEFF}') { '\u{200B}' } else { ch });
   }
   out
 }
